@@ -65,6 +65,8 @@ pub use nervusdb_storage::backup::{
 };
 pub use nervusdb_storage::bulkload::{BulkEdge, BulkLoader, BulkNode};
 pub use nervusdb_storage::vacuum::VacuumReport;
+#[cfg(nervusdb_verif)]
+pub use nervusdb_storage::verif;
 
 /// The main database handle for NervusDB v2.
 ///
